@@ -180,6 +180,8 @@ class CropMachine:
                 cases = [dict(c) for c in sw.cases]
             else:
                 cases = [tuple(c[a] for a in fn_args) for c in sw.cases]
+            if self.tape.flag(1, 4, "cases-as-iterator"):
+                cases = iter(cases)  # zip(...) / a generator: documented as 'iterable'
             crop.sow_cases(fn_args, cases, combos=combos or None,
                            constants=constants, verbosity=0, **kw)
 
@@ -251,6 +253,12 @@ class CropMachine:
                 n = t.int_between(1, min(self.B, 4), "grow-n")
                 ids = t.perm(allids, "grow-ids")[:n]
             arg = ids[0] if (len(ids) == 1 and t.flag(1, 2, "grow-int")) else tuple(ids)
+            if isinstance(arg, tuple):
+                form = t.choose(5, "grow-ids-as")
+                if form == 3:
+                    arg = list(arg)
+                elif form == 4:
+                    arg = iter(arg)  # a one-shot iterator (generator, reversed(...), map(...))
 
             def f():
                 c = crop if crop is not None else self.load_crop()
@@ -337,7 +345,7 @@ def run_c04(ctx):
     m.sow()
     sw = m.sc.sweep
     # invariant: the sown batches hold every requested setting exactly once
-    sown = sorted(calllog.key(kw) for b in m.batches.values() for kw in b)
+    sown = sorted((calllog.key(kw) for b in m.batches.values() for kw in b), key=repr)
     if sown != sw.expected_calls():
         raise Violation("sown-settings-differ",
                         "batch files hold {} settings, expected {}: {} vs {}".format(
@@ -507,6 +515,13 @@ def checked_grow(m, model, how=None, ids=None, io_error=False):
     if stray:
         raise Violation("grow-evaluated-untargeted-settings",
                         "{} {} (targets {}) evaluated {}".format(how, ids, targets, short(stray, 200)))
+    # a grow call that returns normally has grown everything it was asked to
+    if exc is None and not io_error:
+        left = sorted(set(targets) - completed)
+        if left:
+            raise Violation("grow-returned-without-growing",
+                            "{} {} returned normally but batches {} were not evaluated to the end".format(
+                                how, ids, left))
     model.finished |= completed
     m.ctx.stats["grow-failed-legit"] += int(exc is not None)
     if isinstance(exc, calllog.FnError):
